@@ -469,7 +469,7 @@ func runC20(c *fw.Ctx) int {
 	defer os.RemoveAll(scratch)
 	d := &dumper{bin: filepath.Join(scratch, "protodump"), scratch: scratch}
 	build := exec.Command("go", "build", "-o", d.bin, "./cmd/protodump")
-	build.Dir = "/repo"
+	build.Dir = fw.RepoDir
 	if out, err := build.CombinedOutput(); err != nil {
 		c.BrokenProof = append(c.BrokenProof, "protodump does not build: "+trunc(string(out), 300))
 		return c.Finish("", nil, nil)
